@@ -218,8 +218,17 @@ def execute(case):
                 other = call(dict(case, args=a2), grid, ds, nm, lazy=True)
             except Exception:
                 other = None
+        elif case["kind"] == "op" and case.get("id", 0) % 4 == 1 and case.get("op") in TWIN_OP:
+            # ... nor on ANOTHER operation applied to the same lazy array under the same rule (min next to max, diff next
+            # to interp): two task graphs over one input, computed in one go, in either order
+            try:
+                other = call(dict(case, op=TWIN_OP[case["op"]]), grid, ds, nm, lazy=True)
+            except Exception:
+                other = None
         with dask.config.set(scheduler=sched):
-            if other is not None:
+            if other is not None and case.get("id", 0) % 8 == 5:
+                _, res = dask.compute(other, res)
+            elif other is not None:
                 res, _ = dask.compute(res, other)
             else:
                 res = res.compute()
@@ -227,6 +236,23 @@ def execute(case):
     except Exception as ex:
         rec["out"] = model.encode_error(ex)
     return rec
+
+
+TWIN_OP = {"min": "max", "max": "min", "diff": "interp", "interp": "diff"}
+
+
+def empty_chunk_variants(rng, case, dim):
+    """chunkings of the operated dimension that contain an EMPTY chunk (what slicing, rechunking or a lazy selection
+    leaves behind): one non-empty chunk next to empty ones, and a split with an empty chunk inside"""
+    dims, shape = case["args"]["data"]["dims"], case["args"]["data"]["shape"]
+    n = shape[dims.index(dim)]
+    if n < 1:
+        return []
+    cands = [[n, 0], [0, n], [0, n, 0]] + ([[n // 2, 0, n - n // 2]] if n >= 2 else [])
+    out = []
+    for c in rng.sample(cands, 2):
+        out.append([[d, (c if d == dim else [L])] for d, L in zip(dims, shape)])
+    return out
 
 
 def with_chunks(rng, base, kind, specs, **more):
@@ -248,6 +274,8 @@ def gen_cases(rng, thorough):
     for _ in range(nbase):
         b = c01.gen_case(rng, 0, ops=c01.OPS + ["cumsum"], nmax=6 if thorough else 5, maxelems=60)
         cases += with_chunks(rng, b, "op", chunk_variants(rng, b, operated_dim(b)))
+        if len(b["args"]["axis"]) == 1 and rng.random() < 0.5:
+            cases += with_chunks(rng, b, "op", empty_chunk_variants(rng, b, operated_dim(b)), empty_chunk=True)
     # metric-aware operators
     for _ in range(nbase // 2):
         sub = rng.choice(["derivative", "weighted"])
@@ -352,6 +380,7 @@ def klass(r):
 
 
 KNOWN_DEPTH = "map_overlap-boundary-width-exceeds-a-chunk"
+KNOWN_EMPTY = "empty-chunk-along-the-operated-dimension-refused-with-ValueError"
 
 
 def classify(rec, clauses):
@@ -368,6 +397,15 @@ def classify(rec, clauses):
         short = len(m) > 1 and min(m) < max(lo, hi)
         if short and rec["out"].get("cls") == "ValueError":
             return KNOWN_DEPTH
+    if rec["kind"] == "op" and rec.get("empty_chunk") and rec["out"]["k"] == "error" and clauses == ["raised-on-lazy-input"] \
+            and rec["out"].get("cls") == "ValueError":
+        # a chunk of length 0 along the operated dimension: dask's overlap machinery drops / merges it (it is shorter than
+        # the depth 1 of the predefined operators - the mechanism of KNOWN_DEPTH) and the chunks xgcm declared no longer
+        # match ("adjust_chunks specified with ..."); dask's own cumsum cannot broadcast across an empty chunk either
+        ch = list(dict((d, c) for d, c in rec["chunks"])[operated_dim(rec)])
+        msg = rec["out"].get("msg", "")
+        if 0 in ch and ("adjust_chunks" in msg or (rec.get("op") == "cumsum" and "broadcast" in msg)):
+            return KNOWN_EMPTY
     return f"dask-{rec['kind']}-{cl}"
 
 
